@@ -83,8 +83,10 @@ def _stmts(depth, dim, top=False):
     if depth <= 0:
         return st.lists(leaf, min_size=1, max_size=5)
     inner = _stmts(depth - 1, dim)
-    with_ = st.builds(lambda o, p, b, c: {"s": "with", "o": o, "protect": p, "body": b, "check": c},
-                      idx, st.sampled_from([False, False, False, True]), inner, st.integers(0, 255))
+    # "reenter": the context *object* is entered a second time while it is active (the nested block only reads)
+    with_ = st.builds(lambda o, p, b, c, r: {"s": "with", "o": o, "protect": p, "body": b, "check": c, "reenter": r},
+                      idx, st.sampled_from([False, False, False, True]), inner, st.integers(0, 255),
+                      st.sampled_from([False, False, False, True]))
     body = st.lists(st.one_of(leaf, leaf, with_), min_size=1, max_size=5)
     if top:
         # a program always contains at least one context
@@ -652,9 +654,10 @@ class Machine(object):
         return (list(m.basis_stack), len(m.basis_transformations), sorted(m.basis_registered.keys()),
                 bool(m._in_eigenbasis_of_context))
 
-    def exec_with(self, stm):
+    def exec_with(self, stm, cm=None, op=None):
         qr, ctx = self.qr, self.ctx
-        op = self.pick(stm["o"], ["sa", "ham", "dm"], as_context=True)
+        if op is None:
+            op = self.pick(stm["o"], ["sa", "ham", "dm"], as_context=True)
         if op is None:
             return
         # protection only in the library's own pattern: at top level, where the stored representation of the
@@ -668,8 +671,10 @@ class Machine(object):
         ctx.label("with:depth=%d" % depth, "with:" + op.kind + (":protected" if protect else ""))
         if protect:
             op.live.protect_basis()
+        if cm is None:
+            cm = qr.eigenbasis_of(op.live)
         try:
-            with qr.eigenbasis_of(op.live):
+            with cm:
                 # validate the transformation the library announces against the definition
                 S = numpy.array(qr.Manager().basis_transformations[-1], dtype=complex)
                 op_enclosing = self.cur(op.ref, op.kind)
@@ -694,6 +699,10 @@ class Machine(object):
                     op.touched_inside = True
                     self.read(op, "context-operator/diagonal", where=op.kind)
                 try:
+                    if stm.get("reenter") and not protect and not self.dead:
+                        ctx.label("with:context-object-entered-again")
+                        self.exec_with({"s": "with", "o": stm["o"], "protect": False, "check": stm["check"],
+                                        "body": [{"s": "read", "o": stm["o"]}]}, cm=cm, op=op)
                     self.run_block(stm["body"])
                 finally:
                     self.T.pop()
